@@ -139,7 +139,11 @@ def run(an: Analysis, rep):
     rep.run(r016, an, rep)
     rep.run(r015_order, an, rep)
     rep.run(r017, an, rep)
+    from .common import identity_rule, rebuild_rule
+    rep.run(identity_rule, an, rep, "R01.9", ["from_code", "to_code"])
+    rep.run(rebuild_rule, an, rep, "R01.8", ["from_code", "to_code"])
     rep.run(c09.duplicates_key_rule, an, SharedRules(rep, "R01.K", "table entries the encoder cannot tell apart by key keep their position (shared with C09's R09.2): otherwise re-encoding merges them"))
+    rep.run(c09.seed_rules, an, SharedRules(rep, "R01.S", "what the decoder pre-marks in a table (docstring slot, parameter slots) is what the encoder pre-assigns (shared with C09's R09.2): otherwise the two sides number the remaining entries differently"))
     rep.run(c10.format_rules, an, SharedRules(rep, "R01.L", "line-table format constants (shared with C10's R10.*): byte equality of co_lnotab / co_linetable needs them"))
     rep.run(c02.jump_rules, an, SharedRules(rep, "R01.J", "jump scale / offsets / cell-free shift on both sides (shared with C02's R02.3-R02.5): byte equality of co_code needs them"))
     for (cq, fname), (ok, cfg, why, where) in sorted(produced_any.items()):
@@ -151,18 +155,20 @@ def run(an: Analysis, rep):
 def r016(an: Analysis, rep):
     """A jump that was encoded with more than one code unit keeps that width, whatever its operand: the minimal width depends on the final layout."""
     from .c02 import find_parser
-    from .c03 import eval_decision_tree, find_size_fn
+    from .c03 import eval_size, find_size_fn
     from .encode_model import inline_locals
     from sa.feval import callable_for_feval
     import itertools
     rep.rule("R01.6", "the width of every multi-unit jump is recorded", 1)
     it, _ = an.interp("from_code")
     sf = find_size_fn(an)
-    size = callable_for_feval(lambda v: eval_decision_tree(sf, {sf.params[0]: v}))
+    size = callable_for_feval(lambda v: eval_size(an, sf, v))
     done = False
     for f in an.closure("from_code"):
         for n in ast.walk(f.node):
             if isinstance(n, ast.keyword) and n.arg == "_n_args_override":
+                if isinstance(n.value, ast.Attribute) and n.value.attr == "_n_args_override":
+                    continue  # copied from another instruction: decided where that one was built
                 if isinstance(n.value, ast.Constant):
                     done = True
                     rep.add("R01.6", f"{f.qual}::width of multi-unit jumps is recorded", False, loc(f.module, n.value),
@@ -199,6 +205,8 @@ def r016(an: Analysis, rep):
                             ok_any = True
                             break
                     done = True
+                    if not ok_any and not bad:
+                        raise AnalysisError(f"{f.qual}: width override `{norm_src(expr)}` not evaluable")
                     rep.add("R01.6", f"{f.qual}::width of multi-unit jumps is recorded", ok_any, loc(f.module, expr),
                             f"`{norm_src(expr)}` records the unit count whenever it is above 1" if ok_any else
                             f"`{norm_src(expr)}` does not record the width of every jump encoded with more than one unit (e.g. units={bad[0][0]}, {bad[0][1]} -> {bad[0][2]!r}): "
